@@ -135,6 +135,8 @@ pub struct BrokerCfg {
     pub fixed_consumer_tags: bool,
     /// extra delay before the server answers a client Connection.Close with CloseOk
     pub closeok_delay_ns: u64,
+    /// extra delay before the server answers Connection.Open with OpenOk
+    pub open_ok_delay_ns: u64,
 }
 
 /// One step of a scripted handshake: what the server does after receiving the
@@ -204,6 +206,7 @@ impl Default for BrokerCfg {
             spurious_permille: 0,
             fixed_consumer_tags: false,
             closeok_delay_ns: 0,
+            open_ok_delay_ns: 0,
         }
     }
 }
@@ -1403,7 +1406,7 @@ impl Broker {
                     }
                     self.open = Some(o);
                     self.phase = Phase::Open;
-                    let t = self.think();
+                    let t = self.think() + self.cfg.open_ok_delay_ns;
                     let ok = connection::OpenOk { known_hosts: String::new() };
                     let mut okf = Self::m(0, AMQPClass::Connection(Cn::OpenOk(ok)));
                     if let Some((bytes, cut, gap)) = self.cfg.glue_after_open_ok.clone() {
